@@ -16,6 +16,10 @@ func stdlibEffects(fn *ssa.Function) ([]string, bool) {
 	case strings.HasPrefix(name, "encoding/binary.PutUvarint"), strings.HasPrefix(name, "encoding/binary.PutVarint"),
 		strings.Contains(name, "Endian).PutUint"), strings.HasPrefix(name, "encoding/binary.AppendUvarint"), strings.Contains(name, "Endian).AppendUint"):
 		return []string{bvSort(8)}, true
+	case strings.HasPrefix(name, "(*bufio.Reader)."):
+		return []string{"Avail"}, true
+	case name == "io.ReadFull":
+		return []string{"Avail", bvSort(8)}, true
 	case strings.HasPrefix(name, "(*sync.Mutex)."), strings.HasPrefix(name, "(*sync.RWMutex)."):
 		return []string{"Held"}, true
 	case strings.HasPrefix(name, "(*sync/atomic."):
@@ -245,6 +249,64 @@ func (a *Activation) stdlibCall(st *State, callee *ssa.Function, cc *ssa.CallCom
 	case "time.Now":
 		mark()
 		return a.havocValue(st, resT, "now"), true
+	case "(*bufio.Reader).ReadByte":
+		// ghost Avail[r]: number of bytes the peer has actually sent and that are still unread
+		mark()
+		g.trusted["bufio.Reader/io.ReadFull are modelled over a ghost count avail(r) of bytes actually available on the stream: a successful read of k bytes implies k <= avail and decreases it by k"] = true
+		r := args[0].T
+		av := sel(g.heap(st, "Avail"), r)
+		b := g.fresh("rb", bvSort(8))
+		e := g.fresh("rerr", SIface)
+		g.assume(st, implies(eq(e, nilIface), bvcmp("bvuge", av, bv64(1))))
+		st.heaps["Avail"] = sto(g.heap(st, "Avail"), r, ite(eq(e, nilIface), bvop("bvsub", av, bv64(1)), av))
+		return Val{Tuple: []Val{{T: b}, {T: e}}}, true
+	case "(*bufio.Reader).UnreadByte":
+		mark()
+		r := args[0].T
+		av := sel(g.heap(st, "Avail"), r)
+		e := g.fresh("rerr", SIface)
+		st.heaps["Avail"] = sto(g.heap(st, "Avail"), r, ite(eq(e, nilIface), bvop("bvadd", av, bv64(1)), av))
+		return Val{T: e}, true
+	case "(*bufio.Reader).ReadString", "(*bufio.Reader).ReadBytes", "(*bufio.Reader).ReadSlice":
+		mark()
+		r := args[0].T
+		av := sel(g.heap(st, "Avail"), r)
+		s := g.fresh("rstr", SSlice)
+		e := g.fresh("rerr", SIface)
+		g.closed(st, s, types.Typ[types.String])
+		last := sel(g.heap(st, bvSort(8)), elemLoc(sArr(s), bvop("bvadd", sOff(s), bvop("bvsub", sLen(s), bv64(1)))))
+		g.assume(st, and(bvcmp("bvule", sLen(s), av), implies(eq(e, nilIface), and(bvcmp("bvuge", sLen(s), bv64(1)), eq(last, args[1].T)))))
+		st.heaps["Avail"] = sto(g.heap(st, "Avail"), r, bvop("bvsub", av, sLen(s)))
+		return Val{Tuple: []Val{{T: s}, {T: e}}}, true
+	case "io.ReadFull":
+		mark()
+		g.trusted["bufio.Reader/io.ReadFull are modelled over a ghost count avail(r) of bytes actually available on the stream: a successful read of k bytes implies k <= avail and decreases it by k"] = true
+		r := app(SLoc, "iface_loc", args[0].T)
+		buf := args[1].T
+		av := sel(g.heap(st, "Avail"), r)
+		n := g.fresh("rn", bvSort(64))
+		e := g.fresh("rerr", SIface)
+		g.assume(st, and(bvcmp("bvule", n, sLen(buf)), bvcmp("bvule", n, av), eq(eq(e, nilIface), eq(n, sLen(buf)))))
+		st.heaps["Avail"] = sto(g.heap(st, "Avail"), r, bvop("bvsub", av, n))
+		a.frameRange(st, sArr(buf), sOff(buf), sLen(buf), pos)
+		a.havocRange(st, bvSort(8), frameRangeT{arr: sArr(buf), lo: sOff(buf), n: sLen(buf)})
+		return Val{Tuple: []Val{{T: n}, {T: e}}}, true
+	case "strconv.Atoi", "strconv.ParseInt", "strconv.ParseUint":
+		mark()
+		g.trusted["strconv.Atoi/ParseInt: uninterpreted (any integer result, any error); only totality is assumed"] = true
+		return a.havocValue(st, resT, "atoi"), true
+	case "strings.Fields":
+		mark()
+		g.trusted["strings.Fields: result has at most len(s) fields, each no longer than s; contents uninterpreted"] = true
+		s := args[0].T
+		r := g.fresh("fields", SSlice)
+		g.closed(st, r, resT)
+		hs := g.define("Hfs", g.heap(st, SSlice))
+		g.quantified = true
+		g.assume(st, and(bvcmp("bvule", sLen(r), sLen(s)), T(SBool, fmt.Sprintf(
+			"(forall ((i (_ BitVec 64))) (! (=> (bvult i (s_len %s)) (and (bvule (s_len (select %s (elem (s_arr %s) (bvadd (s_off %s) i)))) (s_len %s)) (bvsle #x0000000000000000 (s_len (select %s (elem (s_arr %s) (bvadd (s_off %s) i))))))) :pattern ((select %s (elem (s_arr %s) (bvadd (s_off %s) i))))))",
+			r.S, hs.S, r.S, r.S, s.S, hs.S, r.S, r.S, hs.S, r.S, r.S))))
+		return Val{T: r}, true
 	}
 	// protobuf / raftpb codecs: trusted to read their argument, write only the receiver
 	// (Unmarshal) and allocate; nothing else is assumed about their results.
